@@ -30,7 +30,7 @@ def hloc(n) -> str:
 def rule_tables_agree(ctx, rep: Report, rid="K1"):
     h = header(ctx)
     ctx.tree.src("matlab.h")
-    w, u = h.specialisations("wrap"), h.specialisations("unwrap")
+    w, u = h.specialisations("wrap"), _unwrap_specs(h)
     for t in sorted(set(w) | set(u)):
         rep.add(rid, f"type:{t}:has both wrap<> and unwrap<>", t in w and t in u,
                 f"{t}: wrap specialisation {'present' if t in w else 'MISSING'}, unwrap specialisation "
@@ -53,7 +53,7 @@ def _stmt_index_with_call(stmts, names) -> Optional[int]:
 
 def rule_scalar_read(ctx, rep: Report, rid="K2"):
     h = header(ctx)
-    u = h.specialisations("unwrap")
+    u = _unwrap_specs(h)
     n = 0
     for t, f in sorted(u.items()):
         if t not in SCALARS:
@@ -175,6 +175,47 @@ def rule_scalar_write(ctx, rep: Report, rid="K3", sizeof=SIZEOF_LP64, tag="LP64"
         raise AnalysisError(f"{rep.prop}/{rid}: {n} raw stores found, 7 expected")
 
 
+ERROR_FAMILY = ("error", "mexErrMsgTxt", "mexErrMsgIdAndTxt")
+
+
+def _error_guard_conditions(st) -> List[dict]:
+    """Conditions of `if (c) error(..); else if (c2) error(..);` chains: every condition whose then-branch raises."""
+    out = []
+    while st is not None and st.get("kind") == "IfStmt":
+        inner = st.get("inner", [])
+        if len(inner) > 1 and any(callee(c) in ERROR_FAMILY for c in calls(inner[1])):
+            out.append(inner[0])
+        st = inner[2] if len(inner) > 2 else None
+    return out
+
+
+def _delegate(h, f, depth=2):
+    """The function whose body does the work: f itself, or - when f only hands its arguments to a helper defined in the
+    header (`return helper(array);`) - that helper."""
+    while depth > 0:
+        stmts = statements(f)
+        if len(stmts) != 1 or stmts[0].get("kind") != "ReturnStmt":
+            return f
+        cs = calls(stmts[0])
+        target = None
+        for c in cs:
+            nm = callee(c)
+            if nm and nm not in ERROR_FAMILY and not nm.startswith("mx"):
+                hs = h.functions(nm)
+                if len(hs) == 1:
+                    target = hs[0]
+        if target is None or target is f:
+            return f
+        f = target
+        depth -= 1
+    return f
+
+
+def _unwrap_specs(h) -> Dict[str, dict]:
+    """unwrap<T> specialisations, each represented by the function that does its work (a shared helper is followed)."""
+    return {t: _delegate(h, f) for t, f in h.specialisations("unwrap").items()}
+
+
 def _if_calls_error(st) -> bool:
     if st.get("kind") != "IfStmt":
         return False
@@ -210,7 +251,7 @@ def _source_of(f, expr) -> str:
 
 def rule_guard_before_data(ctx, rep: Report, rid="K4"):
     h = header(ctx)
-    u = h.specialisations("unwrap")
+    u = _unwrap_specs(h)
     n = 0
     for t, f in sorted(u.items()):
         if t not in VECTOR_KINDS | MATRIX_KINDS:
@@ -300,7 +341,7 @@ def _matrix_shape(f) -> Dict[str, object]:
 def rule_loop_shapes(ctx, rep: Report, rid="K5"):
     h = header(ctx)
     wm = h.functions("wrap_Matrix")
-    um = h.specialisations("unwrap").get("gtsam::Matrix")
+    um = _unwrap_specs(h).get("gtsam::Matrix")
     if not wm or um is None:
         raise AnalysisError("wrap_Matrix / unwrap<Matrix> not found")
     ws, us = _matrix_shape(wm[0]), _matrix_shape(um)
@@ -340,7 +381,7 @@ def rule_loop_shapes(ctx, rep: Report, rid="K5"):
         rep.add(rid, "wrap_Vector:array created as size x 1", srcs == ["size", "1"],
                 f"mxCreateDoubleMatrix({srcs[0]}, {srcs[1]})", hloc(c))
     for t in sorted(VECTOR_KINDS):
-        f = h.specialisations("unwrap").get(t)
+        f = _unwrap_specs(h).get(t)
         if f is None:
             continue
         s = _matrix_shape(f)
@@ -404,7 +445,7 @@ def rule_error_terminal(ctx, rep: Report, rid="K6"):
                 cond = strip(st["inner"][0])
                 if cond.get("kind") == "BinaryOperator" and cond.get("opcode") == "!=":
                     names = {ref_name(cond["inner"][0]), ref_name(cond["inner"][1])}
-                    ok = names == {"nargin", "expected"} and any(callee(c) == "error" for b in st["inner"][1:] for c in calls(b))
+                    ok = names == {"nargin", "expected"} and any(callee(c) in ERROR_FAMILY for b in st["inner"][1:] for c in calls(b))
         rep.add(rid, "checkArguments:argument count mismatch is an error", ok,
                 "checkArguments must raise when nargin != expected", hloc(f))
 
@@ -456,12 +497,16 @@ def rule_handle_protocol(ctx, rep: Report, rid="K7"):
         raise AnalysisError(f"{rep.prop}/{rid}: handle readers not found")
     for f in h.functions("unwrap_shared_ptr"):
         stmts = statements(f)
-        i_guard = next((i for i, st in enumerate(stmts) if _if_calls_error(st)
-                        and {callee(c) for c in calls(st["inner"][0])} >= {"mxGetClassID", "mxGetM", "mxGetN"}), None)
         i_data = _stmt_index_with_call(stmts, {"mxGetData"})
+        tested: Set[str] = set()
+        i_guard = None
+        for i, st in enumerate(stmts[: i_data if i_data is not None else 0]):
+            for cond in _error_guard_conditions(st):
+                tested |= {callee(c) for c in calls(cond)}
+                i_guard = i
         rep.add(rid, "unwrap_shared_ptr:validates class id and shape before the cast",
-                i_guard is not None and i_data is not None and i_guard < i_data,
-                f"guard at statement {i_guard}, mxGetData at {i_data}", hloc(f))
+                i_guard is not None and i_data is not None and tested >= {"mxGetClassID", "mxGetM", "mxGetN"},
+                f"error guards before the cast test {sorted(x for x in tested if x)}, last guard at statement {i_guard}, mxGetData at {i_data}", hloc(f))
         rt = canon_type(f.get("type", {})).split("(")[0].strip()
         rep.add(rid, "unwrap_shared_ptr:returns a copy of the shared pointer (keeps the object alive)",
                 rt.replace(" ", "") == "std::shared_ptr<Class>", f"return type {rt}", hloc(f))
